@@ -52,21 +52,23 @@ PROPS = {
         "technique": "Coq proof (confluence of every order the Go code leaves open) + lock-step correspondence + twin executions on the implementation",
     },
     "C03": {
-        "props": ["props/C03_storage.v"],
+        "props": ["props/C03_storage.v", "props/C03_array.v"],
         "coq_module": "StorageTrace", "coq_check": "chk_storage",
-        "runs": two_tier(st_pair("C03", 600, 6000), sched_run("crash", "C03", ["-n", "500", "-steps", "200"], ["-n", "5000", "-steps", "300"])),
+        "runs": two_tier(st_pair("C03", 600, 6000), sched_run("crash", "C03", ["-n", "500", "-steps", "200"], ["-n", "5000", "-steps", "300"]),
+                         ({"cmd": ["array", "-prop", "C03", "-n", "60", "-steps", "300"], "engine": "array"}, {"cmd": ["array", "-prop", "C03", "-n", "1500", "-steps", "600"], "engine": "array", "timeout": 2400})),
         "search": [{"cmd": ["crash", "-prop", "C03", "-n", "1500", "-steps", "200"]}],
         "trusted_base": STORAGE_TB,
-        "level_text": "Storage level theorems for every history: no storage call other than a commit changes the ledger (C03_writes_only_in_commit), a temporary-address slab is never in the ledger (C03_temp_never_written), a crash after a commit leaves the ledger as that commit left it (C03_crash), and after a successful commit a brand-new storage sees every owned slab as it was (C03_commit_durable_slabs). That every container mutation stores each slab it touched is part of the array model (write log compared call by call in C01/C05's lock-step). Tie: lock-step storage histories; container-level crash oracle: after every operation the ledger log must be empty, at every commit and crash point a fresh storage over a copy of the ledger must reopen every live root with the content of the last commit.",
+        "level_text": "Storage level theorems for every history: no storage call other than a commit changes the ledger (C03_writes_only_in_commit), a temporary-address slab is never in the ledger (C03_temp_never_written), a crash after a commit leaves the ledger as that commit left it (C03_crash), and after a successful commit a brand-new storage sees every owned slab as it was (C03_commit_durable_slabs). For arrays the frame theorem is proved for every reachable array and every operation (C03_array_frame): a slab not named in the operation's storeSlab/Remove log is unchanged, a slab whose last event is a store exists, one whose last event is a remove is gone, every new slab is stored, and the log never stores after removing — the array write log is compared call by call with the implementation in lock step. Tie: lock-step storage histories; container-level crash oracle: after every operation the ledger log must be empty, at every commit and crash point a fresh storage over a copy of the ledger must reopen every live root with the content of the last commit.",
         "level_note": "PARTIAL: the link slab record <-> register bytes relies on the codec model (C07) for the slab shapes modelled there; map containers' store discipline is checked by the crash oracle only." + GEN_NOTE,
         "technique": "Coq proof (ledger frame lemma per storage call, induction over histories) + lock-step correspondence + crash/reopen oracle on the implementation",
     },
     "C16": {
-        "props": ["props/C16_storage.v"],
+        "props": ["props/C16_storage.v", "props/C16_pool.v"],
         "coq_module": "StorageTrace", "coq_check": "chk_storage",
-        "runs": two_tier(st_pair("C16", 400, 4000), sched_run("concurrent", "C16", ["-n", "16", "-steps", "150"], ["-n", "150", "-steps", "250"], race=True, timeout=2400)),
+        "runs": two_tier(st_pair("C16", 400, 4000), sched_run("concurrent", "C16", ["-n", "16", "-steps", "150"], ["-n", "150", "-steps", "250"], race=True, timeout=2400),
+                         sched_run("poolcheck", "C16", [], [])),
         "trusted_base": STORAGE_TB,
-        "level_text": "Logic part proved: commit with any number of workers and any arrival order of their results equals the sequential commit, also under faults (C16_parallel_commit_eq_sequential); batch preload is independent of the order in which decoded slabs arrive (C16_preload_order_irrelevant). Runtime part exercised: harness built with the Go race detector; commits/preloads with 1..64 workers vs 1 worker (registers, cache key sets, errors), and groups of 4/16 goroutines each on its own storage vs the same histories alone, GOMAXPROCS 1/4/16, scheduling jitter.",
+        "level_text": "Logic part proved: commit with any number of workers and any arrival order of their results equals the sequential commit, also under faults (C16_parallel_commit_eq_sequential); batch preload is independent of the order in which decoded slabs arrive (C16_preload_order_irrelevant); pooled objects: for every schedule of any number of well-bracketed threads over a pool whose objects were Reset on Put, each thread gets the results it gets alone (C16_pool_isolation, instantiated for digesters and buffers; C16_pool_needs_init / _needs_reset are the negative witnesses), and results depend on the global settings only through their being constant (C16_global_settings). The bracketing pattern itself (every Get has its Put after the last use, Put goes through Reset, getter initialises every field read) is checked syntactically on /repo's sources by `harness poolcheck`. Runtime part exercised: harness built with the Go race detector; commits/preloads with 1..64 workers vs 1 worker (registers, cache key sets, errors), and groups of 4/16 goroutines each on its own storage vs the same histories alone, GOMAXPROCS 1/4/16, scheduling jitter.",
         "level_note": "PARTIAL, explicitly: data-race freedom in the sense of the Go memory model and correct bracketing of pooled digesters/buffers are properties of executions; they are observed on the sampled schedules only (race detector + concurrent-vs-alone comparison), not proved." + GEN_NOTE,
         "technique": "Coq proof of order-independence (permutation arguments) + race-detector build and concurrent-vs-sequential comparison on the implementation",
     },
@@ -137,6 +139,47 @@ PROPS = {
         "level_note": "PARTIAL: panics inside fxamacker/cbor or Go's runtime (stack depth) are outside the model; the two cbor facts above are hypotheses. Observations outside C19's text (events, not violations): EncodeSlab can panic/over-allocate on an accepted register whose inlined map Count disagrees with its elements; a root map index slab with 0 children is accepted and later iteration panics; a self-referencing external collision group makes iteration loop." + GEN_NOTE,
         "technique": "Coq proof (outcome monad with explicit Panic; no-panic and allocation bounds for all inputs) + structure-aware mutation stream against the real decoder with the model as accept/reject oracle",
     },
+    "C18": {
+        "props": ["props/C18.v"],
+        "runs": {"quick": [{"cmd": ["errors", "-prop", "C18", "-n", "400", "-depth", "4"]},
+                           {"cmd": ["array", "-prop", "C18", "-n", "60", "-steps", "300"], "engine": "array", "coq_sample": 2}],
+                 "thorough": [{"cmd": ["errors", "-prop", "C18", "-n", "10000", "-mode", "thorough"], "timeout": 2400},
+                              {"cmd": ["array", "-prop", "C18", "-n", "1500", "-steps", "600"], "engine": "array", "coq_sample": 6, "timeout": 2400}]},
+        "coq_module": "ArrayTrace", "coq_check": "chk_array",
+        "search": [{"cmd": ["errors", "-prop", "C18", "-n", "2000", "-depth", "4"]}],
+        "trusted_base": ["translator: `harness gen-errors` parses /repo/errors.go with go/ast AND constructs every error at run time (errors.As), writing both category columns into coq/gen/ErrCat.v; models: ArrayTree.v, MapElems.v, Storage.v"],
+        "level_text": "Proved: every error constructor of errors.go carries the category the property demands for its cause, statically and at run time, and no constructor is uncategorised (C18_categories, _runtime, _expected_present, _all_categorised: finite generated table checked by computation); in the array, map-element and storage models a request answered by an error leaves the whole state (incl. allocator) unchanged and issues no storage call (C18_array_no_trace, C18_map_no_trace, C18_storage_undefined_id), errors arise exactly for out-of-range indices / invalid ranges / absent keys / refused inserts (C18_array_rejects*, C18_array_range_rejects_exactly, C18_map_rejects_exactly, C18_map_set_rejects_exactly), and a history with its rejected requests removed reaches the same state with the same storage-call log (C18_history, C18_map_history). Tie: invalid requests injected into array histories in lock step (dump before = after), and for maps/nested forests/twins/callback failures at every call index the Go-side oracles (deep dump, Deltas, allocator, register equality of twins, ExternalError).",
+        "level_note": "PARTIAL: callback-failure wrapping (ExternalError), ancestors of nested containers and twin register equality are tested on the implementation, not proved. Observations (events, not violations): a failing custom Digester at level >= 1 is swallowed in inlineCollisionGroup.Get; a transient comparator failure in the collision-limit pre-check of hkeyElements.Set is discarded." + GEN_NOTE,
+        "technique": "Coq proof (generated error-category table by computation; no-trace and history-filter theorems over the array/map/storage models) + lock-step and Go-side no-trace oracles",
+    },
+    "C09": {
+        "props": ["props/C09_array.v"],
+        "coq_module": "ArrayTrace", "coq_check": "chk_array",
+        "runs": {"quick": [{"cmd": ["array", "-prop", "C09", "-n", "60", "-steps", "300"], "engine": "array", "coq_sample": 2},
+                           {"cmd": ["world", "-prop", "C09", "-n", "150", "-steps", "300"]}],
+                 "thorough": [{"cmd": ["array", "-prop", "C09", "-n", "1500", "-steps", "600"], "engine": "array", "coq_sample": 6, "timeout": 2400},
+                              {"cmd": ["world", "-prop", "C09", "-n", "4000", "-steps", "400"], "timeout": 2400}]},
+        "search": [{"cmd": ["world", "-prop", "C09", "-n", "800", "-steps", "300"]}, {"cmd": ["array", "-prop", "C09", "-n", "300", "-steps", "500"]}],
+        "trusted_base": ["model: coq/theories/ArrayTree.v (slab-index allocator, storeSlab/Remove log, external value slabs) — arrays only; maps, collision-group slabs and inline/standalone transitions are covered by the Go-side oracles"],
+        "level_text": "Proved for every reachable array and every operation (C09_array_ids): slab identifiers stay duplicate-free and below the allocator, the root identifier is constant, and the EXACT accounting holds: new tree = old tree + freshly allocated indexes - slabs removed in the log - the external slab of the element handed back to the caller (a permutation equation), so nothing leaks, dangles or is owned twice as long as the caller disposes of what it is handed; emptying by PopIterate removes every non-root slab exactly once and leaves only the root (C09_array_empty_releases_all). Tie: array lock-step (ids, logs, allocator); Go-side after every operation of random nested worlds (arrays+maps, inline<->standalone transitions, external collision groups, large values, detach/dispose): CheckStorageHealth, set of live register ids = ids reachable from the live roots, and after disposing everything the storage is empty.",
+        "level_note": "PARTIAL: the theorem covers arrays; for maps and nested containers the property is checked by the harness's own reachability walk and by the (proved sound and complete, C20) health check on every visited state." + GEN_NOTE,
+        "technique": "Coq proof (identifier accounting as a permutation invariant over operation logs) + lock-step correspondence + reachability oracle on the implementation",
+    },
+    "C13": {
+        "props": ["props/C13_array_links.v", "props/C13_map_elems.v", "props/C13_loaded.v"],
+        "coq_module": "ArrayTrace", "coq_check": "chk_array",
+        "runs": {"quick": [{"cmd": ["array", "-prop", "C13", "-n", "60", "-steps", "300"], "engine": "array", "coq_sample": 2},
+                           {"cmd": ["mapelems", "-prop", "C13", "-n", "200", "-steps", "300"], "engine": "mapelems"},
+                           {"cmd": ["iter", "-prop", "C13", "-n", "150"]}],
+                 "thorough": [{"cmd": ["array", "-prop", "C13", "-n", "1500", "-steps", "600"], "engine": "array", "coq_sample": 6, "timeout": 2400},
+                              {"cmd": ["iter", "-prop", "C13", "-n", "6000", "-mode", "thorough"], "timeout": 3000},
+                              {"cmd": ["mapelems", "-prop", "C13", "-n", "5000", "-steps", "300"], "engine": "mapelems", "timeout": 2400}]},
+        "search": [{"cmd": ["array", "-prop", "C13", "-n", "300", "-steps", "500"]}, {"cmd": ["mapelems", "-prop", "C13", "-n", "1000", "-steps", "300"]}],
+        "trusted_base": ["models: ArrayTree.v (iteration = to_list, pop order, range validation, sibling links), MapElems.v (to_list order, pop order, next-key iteration)"],
+        "level_text": "Proved: for every reachable array the traversal from the first data slab along the sibling links yields exactly the elements in index order without running out of fuel (C13_array_follow_links); for every well-formed map element structure and every digest assignment the enumeration is strictly sorted by the digest vector with no duplicate key, bulk pop is its reverse, and the mutable iterator (first key, then repeated next-key lookup) enumerates exactly the same list (C13_map_order, C13_pop_order, C13_next_key_iteration); the array loaded-value iterator yields, for EVERY set of loaded slabs, an in-order sublist of the full enumeration, never repeats, yields an element exactly when every slab on its path and its value slab are loaded, and yields everything when all slabs are loaded (C13_loaded_sublist, _once, _exact, _all). Tie: every iterator flavour of arrays and maps (iterator objects, Iterate*, ranges at slab boundaries, keys/values only, loaded values under random loaded subsets, pop) at ~1800 checkpoints per quick run, in-iteration overwrites causing splits/merges/group transitions, nested-child mutation through yielded handles, read-only mutation errors, invalid ranges rejected before any callback; read-only iteration, ranges (valid and invalid), pop order and positional reads compared per checkpoint in the array lock-step; iterate/pop/next-key in the map-element lock-step under adversarial digesters.",
+        "level_note": "PARTIAL: mutation during iteration and the map loaded-value iterator are exercised on the implementation only (exact-formula oracle from the hook's tree walk); map theorems are at element level (C12's model)." + GEN_NOTE,
+        "technique": "Coq proof (sibling-link traversal = to_list; sortedness/next-key enumeration for all digest functions) + lock-step iteration comparison",
+    },
     "C20": {
         "props": ["props/C20.v"],
         "coq_module": "HealthTrace", "coq_check": "chk_health",
@@ -151,4 +194,4 @@ PROPS = {
 }
 
 NOT_APPLICABLE = {p: "not yet built in this revision (work in progress; see DESIGN.md section 6 build order)" for p in
-                  ["C01","C05","C09","C10","C11","C13","C17","C18"]}
+                  ["C01","C05","C10","C11","C17"]}
